@@ -162,7 +162,10 @@ def run_case(case, orc, table, seed):
     rg = tf.transform_1d_grid(GaussLegendre(n))
     itf = InverseRTransform(tf if case["ode"] == "inverse-of-grid-map" else BeckeRTransform(0.0, 1.5))
     atoms = [vec(a) for a in case["atoms"]]
-    ags = [AtomGrid(rg, degrees=[int(g["deg"])], center=a) for a in atoms]
+    # three of four cases use randomly rotated angular shells (AtomGrid(..., rotate=seed)): the expansions must
+    # use the angles of the points the grid really has
+    rot = (int(case["id"]) % 4) * 7
+    ags = [AtomGrid(rg, degrees=[int(g["deg"])], center=a, rotate=rot + k if rot else 0) for k, a in enumerate(atoms)]
     if len(ags) == 1:
         grid = ags[0]
     else:
@@ -283,7 +286,9 @@ def select(cases, tier, rng):
     rng.shuffle(kinds)
     picked = [rng.choice(by["bvp_chan"]),
               rng.choice([c for c in by["bvp_s"] if c["rcut"] and c["boundary"] == "auto"]),   # boundary value matters
-              rng.choice([c for c in by["mol"] if len(c["atoms"]) == 3])]
+              rng.choice([c for c in by["mol"] if len(c["atoms"]) == 3]),
+              rng.choice([c for c in by["lap"] if len(c["atoms"]) >= 2]),                       # Laplacian on a molecular grid
+              rng.choice([c for c in by["robust_exact"] + by["robust_core"] if len(c["atoms"]) == 2])]   # two elements
     for k in kinds:
         pool = by[k] if k != "lap" else [c for c in by[k] if any(t["l"] > 0 for t in c["terms"])]   # exercises l(l+1)
         picked.append(rng.choice(pool))
